@@ -233,8 +233,9 @@ MatchKinds == {"match", "flow_mod", "flow_removed", "sreq_flow", "sreq_aggregate
 
 \* an object that is changed after it has been encoded once, and encoded again
 Mod(tag, m, mods) == [tag |-> tag, msg |-> m, mods |-> mods]
-SetF(f, v) == [path |-> <<Step(f, 0)>>, op |-> "set", v |-> v]
-App(f, v) == [path |-> <<Step(f, 0)>>, op |-> "append", v |-> v]
+MD(path, op, v, when, form) == [path |-> path, op |-> op, v |-> v, when |-> when, form |-> form]
+SetF(f, v) == MD(<<Step(f, 0)>>, "set", v, "post", "")
+App(f, v) == MD(<<Step(f, 0)>>, "append", v, "post", "")
 OneAct == Build("P", ASh("a_set_dl_dst"))
 Modified(lazy) ==
   LET fm == Build("P", DefShape("flow_mod"))
@@ -245,7 +246,7 @@ Modified(lazy) ==
     Mod("flow_mod/mod/actions+", fm, <<App("actions", OneAct)>>),
     Mod("flow_mod/mod/cookie", fm, <<SetF("cookie", Pat("M", 8, 0))>>),
     Mod("flow_mod/mod/match", fm, <<SetF("match", SV("match", ARP))>>),
-    Mod("flow_mod/mod/match.tp_dst", fm, <<[path |-> <<Step("match", 0), Step("tp_dst", 0)>>, op |-> "set", v |-> <<31, 144>>]>>),
+    Mod("flow_mod/mod/match.tp_dst", fm, <<MD(<<Step("match", 0), Step("tp_dst", 0)>>, "set", <<31, 144>>, "post", "")>>),
     Mod("packet_out/mod/actions+", po, <<App("actions", OneAct), App("actions", OneAct)>>),
     Mod("packet_out/mod/data", po, <<SetF("data", RestPat("P", 60))>>),
     Mod("packet_in/mod/data", Build("M", DefShape("packet_in")), <<SetF("data", RestPat("P", 61))>>),
@@ -253,13 +254,13 @@ Modified(lazy) ==
     Mod("error/mod/data", sq("error"), <<SetF("data", RestPat("P", 1))>>),
     Mod("vendor/mod/data", sq("vendor"), <<SetF("data", RestPat("P", 9))>>),
     Mod("features_reply/mod/ports+", fr, <<App("ports", Build("M", S0("phy_port")))>>),
-    Mod("features_reply/mod/ports[1].name", fr, <<[path |-> <<Step("ports", 1), Step("name", 0)>>, op |-> "set", v |-> <<101, 116, 104>>]>>),
+    Mod("features_reply/mod/ports[1].name", fr, <<MD(<<Step("ports", 1), Step("name", 0)>>, "set", <<101, 116, 104>>, "post", "")>>),
     Mod("srep_flow/mod/body+", sq("srep_flow"), <<App("body", Build("M", FSh(AllWild, TwoActs)))>>),
-    Mod("srep_flow/mod/body[1].actions+", sq("srep_flow"), <<[path |-> <<Step("body", 1), Step("actions", 0)>>, op |-> "append", v |-> OneAct]>>),
+    Mod("srep_flow/mod/body[1].actions+", sq("srep_flow"), <<MD(<<Step("body", 1), Step("actions", 0)>>, "append", OneAct, "post", "")>>),
     Mod("srep_table/mod/body+", sq("srep_table"), <<App("body", Build("M", S0("table_stats")))>>),
     Mod("srep_port/mod/body+", sq("srep_port"), <<App("body", Build("M", S0("port_stats")))>>),
     Mod("srep_queue/mod/body+", sq("srep_queue"), <<App("body", Build("M", S0("queue_stats")))>>),
-    Mod("srep_port/mod/body[2].rx_bytes", sq("srep_port"), <<[path |-> <<Step("body", 2), Step("rx_bytes", 0)>>, op |-> "set", v |-> Pat("M", 8, 0)]>>),
+    Mod("srep_port/mod/body[2].rx_bytes", sq("srep_port"), <<MD(<<Step("body", 2), Step("rx_bytes", 0)>>, "set", Pat("M", 8, 0), "post", "")>>),
     Mod("srep_desc/mod/sw_desc", sq("srep_desc"), <<SetF("sw_desc", <<80, 79, 88>>)>>),
     Mod("srep_aggregate/mod/flow_count", sq("srep_aggregate"), <<SetF("flow_count", <<0, 0, 0, 9>>)>>),
     Mod("srep_vendor/mod/data", sq("srep_vendor"), <<SetF("data", RestPat("P", 12))>>),
@@ -271,8 +272,8 @@ Modified(lazy) ==
     Mod("sreq_vendor/mod/data", sq("sreq_vendor"), <<SetF("data", RestPat("P", 12))>>),
     Mod("queue_get_config_reply/mod/queues+", sq("queue_get_config_reply"), <<App("queues", Build("M", QSh(<<S0("qp_min_rate")>>)))>>),
     Mod("queue_get_config_reply/mod/queues[2].properties+", sq("queue_get_config_reply"),
-        <<[path |-> <<Step("queues", 2), Step("properties", 0)>>, op |-> "append", v |-> Build("M", S0("qp_min_rate"))]>>),
-    Mod("port_status/mod/desc.name", sq("port_status"), <<[path |-> <<Step("desc", 0), Step("name", 0)>>, op |-> "set", v |-> <<112, 49>>]>>),
+        <<MD(<<Step("queues", 2), Step("properties", 0)>>, "append", Build("M", S0("qp_min_rate")), "post", "")>>),
+    Mod("port_status/mod/desc.name", sq("port_status"), <<MD(<<Step("desc", 0), Step("name", 0)>>, "set", <<112, 49>>, "post", "")>>),
     Mod("port_mod/mod/hw_addr", sq("port_mod"), <<SetF("hw_addr", Pat("M", 6, 0))>>),
     Mod("set_config/mod/miss_send_len", sq("set_config"), <<SetF("miss_send_len", <<255, 255>>), SetF("flags", <<0, 1>>)>>),
     Mod("hello/mod/xid", sq("hello"), <<SetF("xid", Pat("M", 4, 0))>>) })
@@ -453,6 +454,65 @@ Received(B) ==
                 Wire([Build("M", DefShape("packet_out")) EXCEPT !.f.actions = <<OutRaw(<<255, 251>>, <<0, 64>>)>>]), FALSE)}
         \* a HELLO with a body
         \cup {R("hello/recv-body/" \o ToString(n), "hello", Wire(Build("P", Sn("hello_ext", n))), FALSE) : n \in {1, 8, 100}})
+
+(* ---- construction histories -------------------------------------------------- *)
+(* The same final object reached by different sequences of writes (before the    *)
+(* first encoding: when = "pre"; between encodings: "post"), in the spellings    *)
+(* the library offers.  Its encoding may depend only on the final value.         *)
+MatchPath(k) == IF k = "match" THEN <<>>
+                ELSE IF k = "srep_flow" THEN <<Step("body", 1), Step("match", 0)>> ELSE <<Step("match", 0)>>
+NwSet(n, a, bits) == (n :> MaskIP(a, bits)) @@ ((n \o "_bits") :> <<bits>>)          \* bits = 0: None
+HStep(fields, form) == [f |-> fields, form |-> form]
+NwSteps(n) == {HStep(NwSet(n, <<172, 16, 254, 129>>, 1), "tuple"), HStep(NwSet(n, <<172, 16, 254, 129>>, 24), "cidr"),
+               HStep(NwSet(n, <<172, 16, 254, 129>>, 31), "method"), HStep(NwSet(n, <<172, 16, 254, 129>>, 32), "attr"),
+               HStep(NwSet(n, <<0, 0, 0, 0>>, 0), "attr"), HStep(NwSet(n, <<0, 0, 0, 0>>, 0), "method")}
+NwStepsT(n) == NwSteps(n) \cup {HStep(NwSet(n, <<10, 255, 0, 77>>, b), fm) : b \in {8, 9, 16, 17, 25}, fm \in {"tuple", "cidr", "method"}}
+                \cup {HStep(NwSet(n, <<10, 255, 0, 77>>, 32), "tuple"), HStep(NwSet(n, <<10, 255, 0, 77>>, 0), "tuple")}
+FieldSteps == {HStep(("in_port" :> <<0, 9>>), "attr"), HStep(("in_port" :> <<>>), "attr"),
+               HStep(("tp_dst" :> <<1, 187>>), "attr"), HStep(("tp_dst" :> <<>>), "attr"),
+               HStep(("nw_proto" :> <<17>>), "attr"), HStep(("nw_proto" :> <<>>), "attr"),
+               HStep(("dl_type" :> <<>>), "attr"), HStep(("dl_type" :> IPType), "attr"),
+               HStep(Wild, "wildcards")}
+FieldStepsT == FieldSteps \cup {HStep((n :> <<>>), "attr") : n \in FlagFields}
+                \cup {HStep((n :> Pat("P", MatchW[n], 7)), "attr") : n \in FlagFields \ {"dl_type", "nw_proto"}}
+                \cup {HStep(("dl_type" :> ARPType), "attr"), HStep(("nw_proto" :> <<1>>), "attr")}
+IPOnly == Normal([Wild EXCEPT !.dl_type = IPType])
+HMods(k, seq, when) == [i \in 1..Len(seq) |-> MD(MatchPath(k), "setf", seq[i].f, when[i], seq[i].form)]
+ApplyAll(m, mods) == FoldLeft(LAMBDA x, md : IF md.op = "setf" THEN PutF(x, md.path, md.v) ELSE Put(x, md.path, md.op, md.v),
+                              m, mods)
+GoodH(S) == {c \in S : WF(c.msg) /\ Constructible(c.msg) /\
+                       LET fin == ApplyAll(c.msg, c.mods) IN WF(fin) /\ Constructible(fin)}
+Seqs(A, d) == UNION {[1..n -> A] : n \in 1..d}
+Whens(n, w) == [i \in 1..n |-> w]
+\* every sequence of up to d writes from alphabet A on the match of a structure of kind k that starts as base
+Histories(k, base, A, d, w) ==
+  GoodH({Mod(k \o "/history-" \o w \o "/" \o ToString(Len(sq)), Holder(k, SV("match", base)), HMods(k, sq, Whens(Len(sq), w))) :
+           sq \in Seqs(A, d)})
+\* one write while constructing, the object is encoded, a second write, encoded again
+PrePost(k, base, A) ==
+  GoodH({Mod(k \o "/history-pre+post", Holder(k, SV("match", base)), HMods(k, <<ab[1], ab[2]>>, <<"pre", "post">>)) : ab \in A \X A})
+\* other structures: scalars written twice, lists grown while constructing and between encodings
+Cycles(lazy) ==
+  LET fm == Build("P", DefShape("flow_mod"))
+      pre(m) == [m EXCEPT !.when = "pre"]
+      grow(tag, b, f, e) == Mod(tag, b, <<pre(App(f, e)), App(f, e), App(f, e)>>)
+  IN Good({
+    Mod("flow_mod/history/cookie", fm, <<pre(SetF("cookie", Pat("M", 8, 0))), pre(SetF("cookie", Pat("S", 8, 0))), SetF("cookie", Pat("Q", 8, 0))>>),
+    grow("flow_mod/cycles/actions", fm, "actions", OneAct),
+    grow("packet_out/cycles/actions", Build("M", DefShape("packet_out")), "actions", OneAct),
+    grow("features_reply/cycles/ports", Build("P", DefShape("features_reply")), "ports", Build("M", S0("phy_port"))),
+    grow("srep_flow/cycles/body", Build("P", DefShape("srep_flow")), "body", Build("M", FSh(AllWild, TwoActs))),
+    grow("srep_table/cycles/body", Build("P", DefShape("srep_table")), "body", Build("M", S0("table_stats"))),
+    grow("srep_port/cycles/body", Build("P", DefShape("srep_port")), "body", Build("M", S0("port_stats"))),
+    grow("srep_queue/cycles/body", Build("P", DefShape("srep_queue")), "body", Build("M", S0("queue_stats"))),
+    grow("queue_get_config_reply/cycles/queues", Build("P", DefShape("queue_get_config_reply")), "queues", Build("M", QSh(<<S0("qp_min_rate")>>))),
+    grow("actions/cycles", Build("P", DefShape("actions")), "actions", OneAct),
+    grow("nx_flow_mod/cycles/actions", Build("P", DefShapeNX("nx_flow_mod")), "actions", OneAct),
+    grow("nxa_learn/cycles/spec", Build("P", DefShapeNX("nxa_learn")), "spec", SomeFms[4]),
+    Mod("srep_flow/cycles/body=", Build("P", DefShape("srep_flow")),
+        <<SetF("body", <<Build("M", FSh(AllWild, TwoActs))>>), SetF("body", <<>>), App("body", Build("Q", FSh(TCPMatch, <<>>)))>>),
+    Mod("sreq_port/cycles/port_no", Build("P", DefShape("sreq_port")), <<pre(SetF("port_no", <<0, 1>>)), SetF("port_no", <<0, 2>>), SetF("port_no", <<0, 3>>)>>),
+    Mod("srep_desc/cycles/hw_desc", Build("P", DefShape("srep_desc")), <<pre(SetF("hw_desc", <<80>>)), SetF("hw_desc", <<81, 82>>), SetF("hw_desc", <<>>)>>) })
 
 (* (lazy): TLC evaluates every zero-arity constant definition of the modules   *)
 (* it loads when it starts; the dummy parameter keeps the big families from    *)
